@@ -80,6 +80,12 @@ SYSTEMS = {
     # the element argument); the independent value is the user's own function, not kawin's wrapper around it
     'nicral-usermob': dict(src=('datasets', 'NICRAL_TDB'), elements=['NI', 'CR', 'AL'], phases=['FCC_A1'], phase='FCC_A1',
                            axes=[('CR', 0.02, 0.30), ('AL', 0.01, 0.12)], T=[1073.15, 1473.15], usermob=True),
+    # interstitial sublattice (harness-owned database, mc/interstitial_tdb.py): curvature, tracer diffusivities, eigenvalues and the
+    # volume-fixed frame of the SUBSTITUTIONAL rows (interstitials diffuse on their own sublattice and do not enter that sum)
+    'fecrc-int': dict(src=('tdb', 'interstitial'), elements=['FE', 'CR', 'C'], phases=['FCC_A1'], phase='FCC_A1',
+                      axes=[('CR', 0.05, 0.25), ('C', 0.004, 0.03)], T=[1173.15, 1373.15], interstitials=['C']),
+    'fecrcn-int': dict(src=('tdb', 'interstitial'), elements=['FE', 'CR', 'C', 'N'], phases=['FCC_A1'], phase='FCC_A1',
+                       axes=[('CR', 0.05, 0.25), ('C', 0.004, 0.03), ('N', 0.002, 0.01)], T=[1273.15], interstitials=['C', 'N']),
     'fecrni-fcc-corr': dict(src=('datasets', 'FECRNI_DB'), elements=['FE', 'CR', 'NI'], phases=['FCC_A1', 'BCC_A2'], phase='FCC_A1',
                             axes=[('CR', 0.05, 0.25), ('NI', 0.08, 0.40)], T=[1273.15, 1473.15], correction={'CR': 25.0, 'FE': 0.2}),
 }
@@ -103,6 +109,9 @@ USER_MOB = {'NI': _arrh(2.1e-4, 2.87e5), 'CR': _arrh(1.0, 1.0), 'AL': _arrh(7.5e
 
 def _db_arg(s):
     kind, name = SYSTEMS[s]['src']
+    if kind == 'tdb':
+        from mc.interstitial_tdb import TDB
+        return TDB
     return getattr(datasets, name) if kind == 'datasets' else EXAMPLES + name
 
 
@@ -229,7 +238,10 @@ def check_point(s, x, T, order=None):
     if np.any(np.abs(np.imag(ev)) > 0) or not np.all(np.real(ev) > 0):
         bad('interdiffusivity-eigenvalues', 'eigenvalues %s of D=%s' % (ev.tolist(), D.tolist()))
     perm = [alpha_sol.index(e) for e in solutes]      # user solute order -> index in alpha_sol
-    if M is not None:
+    inter = d.get('interstitials')
+    if inter:
+        Dref = None       # the closed form below is the substitutional one; with interstitials only the eigenvalue clause applies
+    elif M is not None:
         # D_kj = sum_i (delta_ik - x_k) x_i M_i d mu_i/d x_j   (all elements substitutional in the shipped matrix phases)
         Dref_a = np.zeros((n - 1, n - 1))
         for kk, ek in enumerate(alpha_sol):
@@ -240,7 +252,7 @@ def check_point(s, x, T, order=None):
     else:
         # database with diffusivity (not mobility) parameters: D_kk is the diffusivity function of element k itself
         Dref = np.diag([tracer_ref[alpha.index(e)] for e in solutes])
-    errD = float(np.max(np.abs(D - Dref))) / float(np.max(np.abs(Dref)))
+    errD = float(np.max(np.abs(D - Dref))) / float(np.max(np.abs(Dref))) if Dref is not None else 0.0
     if errD > TOL_FD:
         bad('interdiffusivity-vs-mobility-times-curvature', 'relative error %.2e; D=%s reference=%s' % (errD, D.tolist(), Dref.tolist()))
 
@@ -259,6 +271,9 @@ def check_point(s, x, T, order=None):
     # ---- volume-fixed frame: substitutional rows of each column of the mobility matrix sum to zero
     if mobc is not None:
         MM = np.asarray(mobility_matrix(cs, mobc, mobility_correction=dict(th.mobility_correction)), dtype=float)
+        if inter:
+            rows = [i for i, e in enumerate(alpha) if e not in inter]
+            MM = MM[np.ix_(rows, rows)]       # substitutional block; the interstitial rows/columns carry no substitutional flux
         cols = np.abs(MM.sum(axis=0)) / np.max(np.abs(MM), axis=0)
         if np.any(cols > TOL_COLSUM):
             bad('mobility-matrix-column-sum', 'relative column sums %s of %s' % (cols.tolist(), MM.tolist()))
